@@ -1,5 +1,6 @@
 (* The single entry point evaluated by the extracted driver and by vm_compute. *)
 From ASV Require Import Base.
+From ASV.C01 Require Model.
 From ASV.C04 Require Model.
 From ASV.C14 Require Model.
 From ASV.C15 Require Model.
@@ -8,6 +9,7 @@ Definition run (l : list Z) : list Z :=
   match l with
   | p :: fn :: payload =>
     match p with
+    | 1 => C01.Model.run_C01 fn payload
     | 4 => C04.Model.run_C04 fn payload
     | 14 => C14.Model.run_C14 fn payload
     | 15 => C15.Model.run_C15 fn payload
